@@ -878,7 +878,7 @@ pub fn run_c11big(out: &mut Out, rng: &mut Rng, only: Option<&str>, giant_slice:
             s.update(3, &rng.bytes(9));
             s.fin(3);
         }
-        if giant_slice {
+        {
             // powers of two on both sides: a generator holding exactly 2^31 (then 2^31 + 2^30) bytes in its length
             // counter is handed ONE slice of exactly 2^31 (2^30) bytes
             for (have, piece) in [(1u64 << 31, 1u64 << 31), ((1u64 << 31) + (1u64 << 30), 1u64 << 30)] {
